@@ -2742,6 +2742,20 @@ func (p *Posix) UploadPartCopy(ctx context.Context, upi *s3.UploadPartCopyInput)
 		return s3response.CopyPartResult{}, fmt.Errorf("stat object: %w", err)
 	}
 
+	if p.versioningEnabled() {
+		// a delete marker is not an object that can be copied
+		isDelMarker, err := p.isObjDeleteMarker(srcBucket, srcObject)
+		if err != nil {
+			return s3response.CopyPartResult{}, err
+		}
+		if isDelMarker {
+			if srcVersionId != "" {
+				return s3response.CopyPartResult{}, s3err.GetAPIError(s3err.ErrMethodNotAllowed)
+			}
+			return s3response.CopyPartResult{}, s3err.GetAPIError(s3err.ErrNoSuchKey)
+		}
+	}
+
 	startOffset, length, err := backend.ParseCopySourceRange(fi.Size(), *upi.CopySourceRange)
 	if err != nil {
 		return s3response.CopyPartResult{}, err
@@ -4371,6 +4385,21 @@ func (p *Posix) CopyObject(ctx context.Context, input s3response.CopyObjectInput
 	}
 	if !strings.HasSuffix(srcObject, "/") && fi.IsDir() {
 		return nil, s3err.GetAPIError(s3err.ErrNoSuchKey)
+	}
+	if p.versioningEnabled() {
+		// a delete marker is not an object that can be copied: the key
+		// reads as missing (the marker's file still holds the data of the
+		// version it hides)
+		isDelMarker, err := p.isObjDeleteMarker(srcBucket, srcObject)
+		if err != nil {
+			return nil, err
+		}
+		if isDelMarker {
+			if srcVersionId != "" {
+				return nil, s3err.GetAPIError(s3err.ErrMethodNotAllowed)
+			}
+			return nil, s3err.GetAPIError(s3err.ErrNoSuchKey)
+		}
 	}
 
 	mdmap := make(map[string]string)
